@@ -175,6 +175,11 @@ def gen_profiles(rng, tier):
         spec = {"kind": rng.choice(["balanced", "spiky", "mixed_days"]), "scale": 20000.0, "seed": rng.randrange(1, 10 ** 6)}
         for rc in (3901000.0, 1500000.0, 2600000.0):
             ps.append({"months": 12, "loads": spec, "spikes": [], "grout_rhocp": rc})
+    # two different years of loads with the same length and the same annual total (one is the other shifted by some weeks), in one process
+    for k in range(1 if tier == "quick" else 3):
+        spec = {"kind": rng.choice(["balanced", "heating", "cooling"]), "scale": 18000.0, "seed": rng.randrange(1, 10 ** 6)}
+        ps.append({"months": 24, "loads": spec, "spikes": []})
+        ps.append({"months": 24, "loads": dict(spec, shift_hours=24 * rng.choice([35, 61, 100])), "spikes": []})
     # the same profile processed for a horizon that is not a whole number of years and then for a longer one, in one process
     for k in range(1 if tier == "quick" else 3):
         spec = {"kind": rng.choice(["balanced", "heating", "spiky"]), "scale": 15000.0, "seed": rng.randrange(1, 10 ** 6)}
@@ -296,7 +301,7 @@ def oracle_profile(chk, which, p, o):
                 continue
             w.sort()
             for a, b in w:
-                if not (ends[m - 1] < a < b < ends[m]):
+                if not (ends[m - 1] < a <= b < ends[m]):        # a window of zero length overlaps nothing
                     ok_windows = False
             if len(w) == 2 and not (w[0][1] < w[1][0]):
                 ok_windows = False
